@@ -819,7 +819,8 @@ func typeName(v any) string { return strings.TrimPrefix(reflect.TypeOf(v).String
 
 func fuzzMonitor(r *Rng, n int, report func(reg.Violation)) {
 	cdc := newCodec()
-	// recorded finding witnesses, re-evaluated on every run
+	// regression corpus: the witnesses of the nine panics fixed by 011a55d, 72a91a5, 80c430e, 989746f, 7737863,
+	// 23d73d2 and 8087a4d; each must now return (an error), a panic is a fresh violation
 	call(report, "clienttypes.MsgCreateClient.ValidateBasic", func() any { return "MsgCreateClient{ClientState: nil, Signer: <valid>}" }, func() {
 		_ = clienttypes.MsgCreateClient{Signer: validAddr}.ValidateBasic()
 	})
